@@ -27,6 +27,7 @@ func checkC09(p *Prog, r *Report) {
 	ruleC09Ifchanged(p, a, r)
 	ruleC09Shared(p, a, r)
 	ruleC09SortOrder(p, a, r)
+	ruleC09SortTotal(p, a, r)
 }
 
 func ruleC09State(p *Prog, a *Anchors, r *Report) {
